@@ -485,6 +485,59 @@ theorem cube_load_one (ls : List Str) (path : Nat) (fs : FS) :
       ∃ evs, st'.trace = .close :: (evs ++ [.openR]) ∧ LoadEvs evs :=
   reader_load_one _ _ _ _
 
+
+/-! ## GROMACS gro -/
+
+theorem gro_good : Good Rd.Gro.loadOne := by
+  unfold Rd.Gro.loadOne
+  refine good_bind good_next fun _ => good_bind (good_liftE _) fun _ => good_bind good_next fun _ =>
+    good_bind (good_liftE _) fun _ => good_bind (good_liftE _) fun _ => good_bind (good_liftE _) fun _ =>
+    good_bind (good_repeatN (good_bind good_next fun _ => good_liftE _) _) fun _ =>
+    good_bind good_next fun _ => good_bind (good_liftE _) fun _ => good_pure _
+
+/-- **gro_terminates**: on any list of lines the GRO reader returns an object or raises a class of the
+enumeration, after at most `N + 1` reads. -/
+theorem gro_terminates (ls : List Str) :
+    ((∃ o, (Rd.Gro.read ls).res = .ok o) ∨ (∃ c, (Rd.Gro.read ls).res = .error c)) ∧
+    (Rd.Gro.read ls).lineno ≤ ls.length + 1 := by
+  refine ⟨?_, run_lineno_le gro_good.fin ls⟩
+  cases (Rd.Gro.read ls).res with
+  | ok o => exact Or.inl ⟨o, rfl⟩
+  | error c => exact Or.inr ⟨c, rfl⟩
+
+/-- **gro_shapes**: a returned GRO result has `atcoords (natom, 3)`, three `atffparams` arrays and the
+velocities of length `natom` (none of them seen by a validator), cell vectors `(3, 3)`, and passes the
+constructor. -/
+theorem gro_shapes (ls : List Str) (o : RObj) (h : (Rd.Gro.read ls).res = .ok o) :
+    ∃ n, o.natom = some n ∧ o.FullyConsistent n ∧ ctorE o = none := by
+  unfold Rd.Gro.read run at h
+  rcases hm : Rd.Gro.loadOne ⟨ls, 0⟩ with ⟨r, l'⟩
+  rw [hm] at h
+  simp only at h
+  subst h
+  unfold Rd.Gro.loadOne at hm
+  obtain ⟨_, _, -, hm⟩ := bind_ok hm
+  obtain ⟨_, _, -, hm⟩ := bind_ok hm
+  obtain ⟨_, _, -, hm⟩ := bind_ok hm
+  obtain ⟨natoms, _, -, hm⟩ := bind_ok hm
+  obtain ⟨_, _, -, hm⟩ := bind_ok hm
+  obtain ⟨_, _, -, hm⟩ := bind_ok hm
+  obtain ⟨_, _, -, hm⟩ := bind_ok hm
+  obtain ⟨_, _, -, hm⟩ := bind_ok hm
+  obtain ⟨_, _, -, hm⟩ := bind_ok hm
+  obtain ⟨ho, -⟩ := pure_ok hm
+  subst ho
+  refine ⟨natoms.toNat, rfl, ⟨⟨?_, ?_, ?_, ?_, ?_, ?_⟩, ?_, ?_⟩, ?_⟩ <;>
+    simp [ctorE, ctorOk, RObj.natom, optShape, shapeMatch, lenOf]
+
+/-- **gro_load_one**: `load_one` on any GRO file content returns an object with consistent shapes or raises
+`LoadError`; the file is closed. -/
+theorem gro_load_one (ls : List Str) (path : Nat) (fs : FS) :
+    ∃ st', runLoadOne loadOne (behOf (Rd.Gro.read ls) ls.length) path fs = (apiOutcome (Rd.Gro.read ls), st') ∧
+      IsObjOrLoadError (apiOutcome (Rd.Gro.read ls)) ∧ st'.fs = fs ∧
+      ∃ evs, st'.trace = .close :: (evs ++ [.openR]) ∧ LoadEvs evs :=
+  reader_load_one _ _ _ _
+
 /-! ### non-vacuity (the generated tables, evaluated by the kernel) -/
 
 example : (Rd.Xyz.read Gen.Layouts.tables
